@@ -363,6 +363,12 @@ impl<'tcx> Cx<'tcx> {
         }
         match c.const_.eval(tcx, tenv, c.span) {
             Ok(val) => {
+                if let ConstValue::Scalar(Scalar::Ptr(ptr, _)) = val {
+                    let (prov, _) = ptr.into_raw_parts();
+                    if let Some(GlobalAlloc::Static(sdid)) = tcx.try_get_global_alloc(prov.alloc_id()) {
+                        o.push(("static", s(self.path(sdid))));
+                    }
+                }
                 let simple = match t.kind() {
                     ty::Bool | ty::Char | ty::Int(_) | ty::Uint(_) | ty::Float(_) => true,
                     ty::Ref(_, inner, _) => matches!(inner.kind(), ty::Str)
